@@ -116,6 +116,8 @@ def change_extension_functions_to_calls(
                 return node
             if node.func.attr not in function_names:
                 return node
-            return function_call(node.func.attr, [node.func.value] + node.args)
+            new_call = function_call(node.func.attr, [node.func.value] + node.args)
+            new_call.keywords = node.keywords  # what was given by keyword still is
+            return new_call
 
     return transform_calls().visit(a)
